@@ -121,6 +121,7 @@ func Generate(r *rand.Rand, k Knobs) *Scenario {
 		s.Prefix = prefixPool[r.Intn(len(prefixPool))]
 	}
 	s.NoFormat = r.Intn(6) == 0 // gofmt can repair or hide what the raw rendering gets wrong
+	forceName := map[string]bool{} // paths whose real name must be given by ImportName
 	addPath := func(p string, std bool) int {
 		if p == "" || used[p] {
 			return -1
@@ -141,6 +142,17 @@ func Generate(r *rand.Rand, k Knobs) *Scenario {
 			switch r.Intn(5) {
 			case 0:
 				pi.TrueName = fmt.Sprintf("real%d", len(s.Paths))
+				if s.Prefix != "" && len(s.Paths) > 0 && r.Intn(3) == 0 {
+					// a package whose real name is what another path's alias becomes under the File's prefix
+					other := strings.TrimSuffix(s.Paths[r.Intn(len(s.Paths))].Path, "/")
+					if j := strings.LastIndex(other, "/"); j >= 0 {
+						other = other[j+1:]
+					}
+					if cand := s.Prefix + "_" + strings.ToLower(other); token.IsIdentifier(cand) {
+						pi.TrueName = cand
+						forceName[p] = true
+					}
+				}
 			case 1:
 				pi.TrueName = trueNamePool[r.Intn(len(trueNamePool))]
 			case 2:
@@ -177,6 +189,16 @@ func Generate(r *rand.Rand, k Knobs) *Scenario {
 			addPath(stdPool[r.Intn(len(stdPool))], true)
 		case k.AllowC && r.Intn(25) == 0:
 			addPath("C", false)
+		case r.Intn(25) == 0:
+			// a vendored copy: the path ends in the path of a std package (or of another path of the scenario); it is a
+			// package of its own, with a name of its own
+			tail := stdPool[r.Intn(len(stdPool))]
+			if len(s.Paths) > 0 && r.Intn(2) == 0 {
+				tail = strings.TrimSuffix(s.Paths[r.Intn(len(s.Paths))].Path, "/")
+			}
+			if tail != "C" && tail != "" {
+				addPath([]string{"k8s.io/kubernetes/vendor/", "x.y/app/vendor/", "vendor/"}[r.Intn(3)]+tail, false)
+			}
 		default:
 			base := bases[r.Intn(len(bases))]
 			if r.Intn(10) == 0 {
@@ -226,6 +248,8 @@ func Generate(r *rand.Rand, k Knobs) *Scenario {
 			continue
 		}
 		switch {
+		case forceName[pi.Path]:
+			s.Hints = append(s.Hints, Hint{Op: "ImportName", Path: pi.Path, Name: pi.TrueName})
 		case pct(k.DotPct):
 			s.Hints = append(s.Hints, Hint{Op: "ImportAlias", Path: pi.Path, Name: "."})
 		case r.Intn(4) == 0:
